@@ -28,6 +28,8 @@ Rounded1(x, y) == IF Exact THEN QEq(x, y) ELSE NLeq(NAbs(NSub(x, y)), Half1)
 PInit == rb = [kind |-> "none"] /\ rmon = 0 /\ minFed = Zero /\ minReported = Zero /\ ended = FALSE
 
 BeginR(e) ==
+  \* a round's result is final once interpreted: later rounds and checks only read it
+  /\ Ck("ResultUnchangedAfterwards", e.unchanged)
   /\ rb' = e /\ rmon' = 0 /\ minFed' = Zero /\ minReported' = Zero /\ ended' = FALSE
 
 RECURSIVE SumF(_, _)
